@@ -667,4 +667,383 @@ Section Reset2.
           destruct (dictfield_closed f IHr _ _ ltac:(eassumption) E) as [kv' [-> Hk]]. inversion R; subst. apply XP_dict; assumption.
         * rclosed R reset_dictkey_eq FC.
   Qed.
+
+  Lemma xpat_step_closed s f p : xpat s p -> xpat s (snd (step f p)).
+  Proof. apply xpat_closed. Qed.
+  Lemma xarg_value_closed s f a : xarg s a -> xarg s (snd (value f a)).
+  Proof. apply xpat_closed. Qed.
+  Lemma xarg_anext_closed s f a : xarg s a -> xarg s (snd (anext f a)).
+  Proof. apply xpat_closed. Qed.
+  Lemma xpat_reset_closed f p q : xpat true p -> reset f p = Yield q -> xpat true q.
+  Proof. apply xpat_closed. Qed.
+  Lemma xarg_field_closed f a x : xarg true a -> reset_field (reset f) a = Yield x -> xarg true x.
+  Proof. apply field_closed. apply xpat_reset_closed. Qed.
+
+  (** * (A) reset() erases a next();  (B) reset() erases a reset() *)
+  Section AB.
+    Variable f0 : nat.
+    Hypothesis HA : forall s f' p, xpat s p -> reset f0 (snd (step f' p)) = reset f0 p.
+    Hypothesis HB : forall f' p q, xpat true p -> reset f' p = Yield q -> reset f0 q = reset f0 p.
+
+    Lemma itemA_value s f' a : xarg s a -> reset_item (reset f0) (snd (value f' a)) = reset_item (reset f0) a.
+    Proof.
+      intro Ha. inversion Ha as [? ? Fa _|? p Hp]; subst; [rewrite frozen_value by exact Fa; reflexivity|].
+      destruct f' as [|f']; [reflexivity|]. rewrite value_pattern. pose proof (HA s f' p Hp) as E.
+      destruct (step f' p) as [o p']. cbn in *. rewrite E. reflexivity.
+    Qed.
+    Lemma itemA_anext s f' a : xarg s a -> reset_item (reset f0) (snd (anext f' a)) = reset_item (reset f0) a.
+    Proof.
+      intro Ha. inversion Ha as [? ? Fa _|? p Hp]; subst; [rewrite frozen_anext by exact Fa; reflexivity|].
+      destruct f' as [|f']; [reflexivity|]. rewrite anext_pattern. pose proof (HA s f' p Hp) as E.
+      destruct (step f' p) as [o p']. cbn in *. rewrite E. reflexivity.
+    Qed.
+    Lemma fieldA_value s f' a : xarg s a -> reset_field (reset f0) (snd (value f' a)) = reset_field (reset f0) a.
+    Proof.
+      intro Ha. inversion Ha as [? ? Fa _|? p Hp]; subst; [rewrite frozen_value by exact Fa; reflexivity|].
+      destruct f' as [|f']; [reflexivity|]. rewrite value_pattern. pose proof (HA s f' p Hp) as E.
+      destruct (step f' p) as [o p']. cbn in *. rewrite E. reflexivity.
+    Qed.
+    Lemma fieldA_anext s f' a : xarg s a -> reset_field (reset f0) (snd (anext f' a)) = reset_field (reset f0) a.
+    Proof.
+      intro Ha. inversion Ha as [? ? Fa _|? p Hp]; subst; [rewrite frozen_anext by exact Fa; reflexivity|].
+      destruct f' as [|f']; [reflexivity|]. rewrite anext_pattern. pose proof (HA s f' p Hp) as E.
+      destruct (step f' p) as [o p']. cbn in *. rewrite E. reflexivity.
+    Qed.
+
+    Lemma itemB f' a x : xarg true a -> reset_item (reset f') a = Yield x -> reset_item (reset f0) x = reset_item (reset f0) a.
+    Proof.
+      intros Ha E. inversion Ha as [? ? Fa _|? p Hp]; subst.
+      - rewrite frozen_reset_item in E by exact Fa. inversion E; subst. reflexivity.
+      - cbn in E. apply omap_yield_inv in E as [q [Eq ->]]. cbn. rewrite (HB _ _ _ Hp Eq). reflexivity.
+    Qed.
+    Lemma fieldB f' a x : xarg true a -> reset_field (reset f') a = Yield x -> reset_field (reset f0) x = reset_field (reset f0) a.
+    Proof.
+      intros Ha E. inversion Ha as [? ? Fa Ra|? p Hp]; subst.
+      - rewrite still_reset_field in E by auto. inversion E; subst. reflexivity.
+      - cbn in E. apply omap_yield_inv in E as [q [Eq ->]]. cbn. rewrite (HB _ _ _ Hp Eq). reflexivity.
+    Qed.
+    Lemma listB f' l l' : Forall (xarg true) l -> mapM (reset_item (reset f')) l = Yield l' ->
+      mapM (reset_item (reset f0)) l' = mapM (reset_item (reset f0)) l.
+    Proof. intros Hl. apply mapM_B. eapply Forall_impl; [|exact Hl]. intros a Ha b. apply itemB. exact Ha. Qed.
+    Lemma kwlistB f' l l' : Forall (fun ka => xarg true (snd ka)) l -> kwmapM (reset_item (reset f')) l = Yield l' ->
+      kwmapM (reset_item (reset f0)) l' = kwmapM (reset_item (reset f0)) l.
+    Proof.
+      intros Hl. unfold kwmapM. apply mapM_B. eapply Forall_impl; [|exact Hl]. intros [k a] Ha [k' b] E. cbn [fst snd] in *.
+      apply omap_yield_inv in E as [x [Ex E]]. inversion E; subst. rewrite (itemB _ _ _ Ha Ex). reflexivity.
+    Qed.
+    Lemma listfieldB f' l x : Forall (xarg true) l -> reset_field (reset f') (AL l) = Yield x ->
+      reset_field (reset f0) x = reset_field (reset f0) (AL l).
+    Proof. intros Hl E. cbn in E. apply omap_yield_inv in E as [l' [El ->]]. cbn. rewrite (listB _ _ _ Hl El). reflexivity. Qed.
+    Lemma dictfieldB f' kv x : Forall (fun ka => xarg true (snd ka)) kv -> reset_field (reset f') (AD kv) = Yield x ->
+      reset_field (reset f0) x = reset_field (reset f0) (AD kv).
+    Proof. intros Hl E. cbn in E. apply omap_yield_inv in E as [l' [El ->]]. cbn. rewrite (kwlistB _ _ _ Hl El). reflexivity. Qed.
+
+    Lemma takeA s ex g m : forall p, xpat s p -> reset f0 (snd (take ex (step g) m p)) = reset f0 p.
+    Proof.
+      intros p Hp. apply (take_inv (fun q => xpat s q /\ reset f0 q = reset f0 p) ex (step g)); [|split; [exact Hp|reflexivity]].
+      intros q [Hq Eq]. split; [apply xpat_step_closed; exact Hq|]. rewrite (HA s) by exact Hq. exact Eq.
+    Qed.
+
+    Lemma aresetB g a a' : xarg true a -> areset_strict g a = Yield a' -> reset_field (reset f0) a' = reset_field (reset f0) a.
+    Proof.
+      intros Ha E. destruct g as [|g]; [discriminate|]. cbn in E. destruct a; try discriminate.
+      inversion Ha as [? ? Fa _|? ? Hp]; subst; [inversion Fa|].
+      apply omap_yield_inv in E as [q [Eq ->]]. cbn. rewrite (HB _ _ _ Hp Eq). reflexivity.
+    Qed.
+
+    Lemma aallAB g m a o a' : xarg true a -> aall g m a = (o, a') -> reset_field (reset f0) a' = reset_field (reset f0) a.
+    Proof.
+      intros Ha E. destruct g as [|g]; [inversion E; reflexivity|]. destruct a; try (inversion E; reflexivity).
+      inversion Ha as [? ? Fa _|? ? Hp]; subst; [inversion Fa|].
+      rewrite aall_pattern in E. pose proof (takeA true (Yield []) g m p Hp) as T.
+      pose proof (take_inv (xpat true) (Yield []) (step g) (fun q => xpat_step_closed true g q) m p Hp) as C.
+      destruct (take (Yield []) (step g) m p) as [ovs p']. cbn [snd] in T, C.
+      destruct ovs; try (inversion E; subst; cbn; rewrite T; reflexivity).
+      destruct (reset g p') as [p''| | | |] eqn:R; inversion E; subst; cbn; try (rewrite T; reflexivity).
+      rewrite (HB _ _ _ C R), T. reflexivity.
+    Qed.
+
+    Lemma pull_untilA s f' n pattern values target : xarg s pattern ->
+      reset_field (reset f0) (snd (pull_until (anext f') n pattern values target)) = reset_field (reset f0) pattern.
+    Proof.
+      intro H.
+      apply (pull_until_inv (fun a => xarg s a /\ reset_field (reset f0) a = reset_field (reset f0) pattern) (anext f')).
+      - intros a [Ha Ea]. split; [apply xarg_anext_closed; exact Ha|]. rewrite (fieldA_anext s) by exact Ha. exact Ea.
+      - split; [exact H|reflexivity].
+    Qed.
+
+    (** classes whose next() calls itself *)
+    Lemma collapseA s : forall f' input, xarg s input ->
+      reset (S f0) (snd (step f' (PCollapse input))) = reset (S f0) (PCollapse input).
+    Proof.
+      induction f' as [|f' IHf]; intros input H; [reflexivity|].
+      rewrite step_collapse_eq. pose proof (fieldA_value s f' input H) as A. pose proof (xarg_value_closed s f' input H) as C.
+      destruct (value f' input) as [o i']. cbn [snd] in A, C.
+      destruct o as [[]| | | |]; cbv beta iota; try (cbn [snd]; rewrite !reset_collapse_eq, A; reflexivity).
+      rewrite (IHf _ C). rewrite !reset_collapse_eq, A. reflexivity.
+    Qed.
+
+    Lemma norepeatsA s : forall f' input v, xarg s input ->
+      reset (S f0) (snd (step f' (PNoRepeats input v))) = reset (S f0) (PNoRepeats input v).
+    Proof.
+      induction f' as [|f' IHf]; intros input v H; [reflexivity|].
+      rewrite step_norepeats_eq. pose proof (fieldA_value s f' input H) as A. pose proof (xarg_value_closed s f' input H) as C.
+      destruct (value f' input) as [o i']. cbn [snd] in A, C.
+      destruct o as [rv| | | |]; cbv beta iota; try (cbn [snd]; rewrite !reset_norepeats_eq, A; reflexivity).
+      destruct (py_eq rv v || py_eq rv (VInt MAXSIZE)).
+      - rewrite (IHf _ _ C). rewrite !reset_norepeats_eq, A. reflexivity.
+      - cbn [snd]. rewrite !reset_norepeats_eq, A. reflexivity.
+    Qed.
+
+    Lemma list_updateA (l : list arg) i a a' :
+      py_index l i = Some a -> reset_item (reset f0) a' = reset_item (reset f0) a ->
+      reset_field (reset f0) (AL (update_nth (py_index_pos l i) a' l)) = reset_field (reset f0) (AL l).
+    Proof. intros Ei E. cbn. rewrite (mapM_update_nth _ _ _ _ _ (py_index_nth _ _ _ Ei) E). reflexivity. Qed.
+
+    Lemma concatA s : forall f' l pos, Forall (xarg s) l ->
+      reset (S f0) (snd (step f' (PConcatenate (AL l) pos))) = reset (S f0) (PConcatenate (AL l) pos).
+    Proof.
+      induction f' as [|f' IHf]; intros l pos Hl; [reflexivity|].
+      rewrite step_concat_eq. destruct (py_index l pos) as [a|] eqn:Ei; [|reflexivity].
+      pose proof (py_index_Forall _ _ _ _ Hl Ei) as Ha. pose proof (itemA_anext s f' a Ha) as A.
+      pose proof (xarg_anext_closed s f' a Ha) as C. destruct (anext f' a) as [o a']. cbn [snd] in A, C. cbv zeta.
+      pose proof (list_updateA l pos a a' Ei A) as U.
+      pose proof (Forall_update_nth (xarg s) l (py_index_pos l pos) a' Hl C) as Hl'.
+      destruct o; try (cbn [snd]; rewrite !reset_concat_eq, U; reflexivity).
+      destruct (pos <? zlen l - 1).
+      - rewrite (IHf _ _ Hl'). rewrite !reset_concat_eq, U. reflexivity.
+      - cbn [snd]. rewrite !reset_concat_eq, U. reflexivity.
+    Qed.
+  End AB.
+
+  Ltac split_matches :=
+    repeat match goal with
+           | |- context [match ?x with _ => _ end] => destruct x
+           | |- context [if ?x then _ else _] => destruct x
+           end.
+
+  Ltac a_case f0 HA eqn :=
+    cbv zeta;
+    repeat match goal with
+           | PU : forall values target, reset_field _ (snd (pull_until ?g ?n ?p values target)) = _ |- context [pull_until ?g ?n ?p ?v ?t] =>
+               let A := fresh "A" in pose proof (PU v t) as A; destruct (pull_until g n p v t) as [[? ?] ?]; cbn [snd] in A
+           | H : xarg ?s ?a |- context [value ?f ?a] =>
+               let A := fresh "A" in pose proof (fieldA_value f0 HA s f a H) as A; destruct (value f a) as [? ?]; cbn [snd] in A
+           | H : xarg ?s ?a |- context [anext ?f ?a] =>
+               let A := fresh "A" in pose proof (fieldA_anext f0 HA s f a H) as A; destruct (anext f a) as [? ?]; cbn [snd] in A
+           | |- context [if ?x then _ else _] => is_var x; destruct x
+           | |- context [match ?x with _ => _ end] => is_var x; destruct x
+           | |- context [if ?x then _ else _] => destruct x
+           | |- context [match ?x with _ => _ end] => destruct x
+           | _ => progress (cbv beta iota zeta)
+           end;
+    cbv beta iota zeta delta [snd]; rewrite !eqn;
+    repeat match goal with A : reset_field _ _ = reset_field _ _ |- _ => try rewrite A; clear A end;
+    reflexivity.
+
+  Ltac bpeel R FB :=
+    repeat match type of R with
+           | obind (reset_field _ ?a) _ = Yield _ =>
+               let x := fresh "x" in let E := fresh "E" in
+               apply obind_yield_inv in R as [x [E R]]; apply FB in E; [|assumption]
+           end.
+  Ltac b_case R eqn FB :=
+    rewrite eqn in R; bpeel R FB; inversion R; subst; rewrite !eqn;
+    repeat match goal with E : reset_field _ _ = reset_field _ _ |- _ => try rewrite E; clear E end;
+    reflexivity.
+
+  Theorem reset_AB : forall f0,
+    (forall s f' p, xpat s p -> reset f0 (snd (step f' p)) = reset f0 p) /\
+    (forall f' p q, xpat true p -> reset f' p = Yield q -> reset f0 q = reset f0 p).
+  Proof.
+    induction f0 as [|f0 [HA HB]]; [split; intros; reflexivity|]. split.
+    - (* (A) *)
+      intros s f' p Hp. destruct f' as [|f']; [reflexivity|]. inversion Hp; subst.
+      + reflexivity.
+      + (* PSequence *)
+        rewrite step_seq_eq. pose proof (fieldA_value f0 HA s f' rep H0) as A. destruct (value f' rep) as [orep rep']. cbn [snd] in A.
+        destruct orep; try (cbn [snd]; rewrite !reset_seq_eq, A; reflexivity).
+        cbv zeta. destruct (if zlen l =? 0 then Yield true else cmp OGe (VInt rc) a) as [[|]| | | |]; try (cbn [snd]; rewrite !reset_seq_eq, A; reflexivity).
+        destruct (py_index l pos) as [x|] eqn:Ei; [|cbn [snd]; rewrite !reset_seq_eq, A; reflexivity].
+        pose proof (itemA_value f0 HA s f' x (py_index_Forall _ _ _ _ H Ei)) as Ax. destruct (value f' x) as [o x']. cbn [snd] in Ax.
+        pose proof (list_updateA f0 l pos x x' Ei Ax) as U.
+        destruct o; try (cbn [snd]; rewrite !reset_seq_eq, U, A; reflexivity).
+        destruct (pos + 1 >=? zlen l); cbn [snd]; rewrite !reset_seq_eq, U, A; reflexivity.
+      + rewrite step_abs_eq. a_case f0 HA reset_abs_eq.
+      + rewrite step_int_eq. a_case f0 HA reset_int_eq.
+      + rewrite step_binop_eq. a_case f0 HA reset_binop_eq.
+      + rewrite step_and_eq. a_case f0 HA reset_and_eq.
+      + rewrite step_skipif_eq. a_case f0 HA reset_skipif_eq.
+      + rewrite step_counter_eq. a_case f0 HA reset_counter_eq.
+      + rewrite step_pad_eq. a_case f0 HA reset_pad_eq.
+      + rewrite step_padm_eq. a_case f0 HA reset_padm_eq.
+      + rewrite step_stutter_eq. a_case f0 HA reset_stutter_eq.
+      + rewrite step_series_eq. a_case f0 HA reset_series_eq.
+      + rewrite step_range_eq. a_case f0 HA reset_range_eq.
+      + rewrite step_geom_eq. a_case f0 HA reset_geom_eq.
+      + rewrite step_impulse_eq. a_case f0 HA reset_impulse_eq.
+      + rewrite step_loop_eq. a_case f0 HA reset_loop_eq.
+      + rewrite step_pingpong_eq. cbv zeta. split_matches; cbn [snd]; apply reset_pingpong_any.
+      + rewrite step_reverse_eq. destruct values; cbn [snd]; apply reset_reverse_any.
+      + rewrite step_changed_eq. a_case f0 HA reset_changed_eq.
+      + rewrite step_diff_eq. a_case f0 HA reset_diff_eq.
+      + eapply collapseA; eassumption.
+      + eapply norepeatsA; eassumption.
+      + rewrite step_subsequence_eq.
+        pose proof (fun values target => pull_untilA f0 HA s f' f' p0 values target H) as PU.
+        a_case f0 HA reset_subsequence_eq.
+      + rewrite step_wrap_eq. a_case f0 HA reset_wrap_eq.
+      + rewrite step_anyref_eq. a_case f0 HA reset_ref_eq.
+      + (* PReset *)
+        rewrite step_preset_eq. pose proof (fieldA_anext f0 HA s f' t H0) as At. destruct (anext f' t) as [ot t']. cbn [snd] in At.
+        assert (Same : forall o : outcome val, reset (S f0) (snd (o, PReset (AP p0) t')) = reset (S f0) (PReset (AP p0) t))
+          by (intro o; cbn [snd]; rewrite !reset_preset_eq, At; reflexivity).
+        assert (Polled : forall q, xpat true q -> reset f0 q = reset f0 p0 ->
+                  reset (S f0) (snd (let '(o, pattern2) := anext f' (AP q) in (o, PReset pattern2 t'))) = reset (S f0) (PReset (AP p0) t)).
+        { intros q Hq Eq. pose proof (fieldA_anext f0 HA true f' (AP q) (XA_pat _ _ Hq)) as Aq.
+          destruct (anext f' (AP q)) as [o a2]. cbn [snd] in *. rewrite !reset_preset_eq, Aq, At. cbn [reset_field]. rewrite Eq. reflexivity. }
+        destruct ot as [vt| | | |]; try apply Same.
+        destruct (if is_none vt then Yield false else cmp OGt vt (VInt 0)) as [[|]| | | |]; try apply Same; cbv zeta.
+        * destruct (areset_strict f' (AP p0)) as [a1| | | |] eqn:R; try apply Same.
+          destruct f' as [|g]; [discriminate|]. cbn in R. apply omap_yield_inv in R as [q [Rq ->]].
+          apply Polled; [eapply xpat_reset_closed; eauto|eapply HB; eauto].
+        * apply Polled; [assumption|reflexivity].
+      + eapply concatA; eassumption.
+      + (* PMap *)
+        rewrite step_map_eq.
+        assert (Aa : mapM (reset_item (reset f0)) (snd (values_of (value f') args)) = mapM (reset_item (reset f0)) args).
+        { apply values_of_mapM. eapply Forall_impl; [|exact H0]. intros a Ha. eapply itemA_value; eauto. }
+        assert (Ak : kwmapM (reset_item (reset f0)) (snd (kwvalues_of (value f') kwargs)) = kwmapM (reset_item (reset f0)) kwargs).
+        { apply kwvalues_of_mapM. eapply Forall_impl; [|exact H1]. intros [k a] Ha. cbn [snd] in *. eapply itemA_value; eauto. }
+        destruct (values_of (value f') args) as [oa args']. cbn [snd] in Aa.
+        destruct oa; try (cbn [snd]; rewrite !reset_map_eq, Aa; reflexivity).
+        destruct (kwvalues_of (value f') kwargs) as [ok kwargs']. cbn [snd] in Ak.
+        destruct ok; try (cbn [snd]; rewrite !reset_map_eq, Aa, Ak; reflexivity).
+        pose proof (fieldA_anext f0 HA s f' input H) as Ai. destruct (anext f' input) as [o input']. cbn [snd] in Ai.
+        destruct o; cbn [snd]; rewrite !reset_map_eq, Aa, Ak, Ai; reflexivity.
+      + (* PIndexOf *)
+        destruct a as [v|p0|lt|ll|kv].
+        all: try (rewrite step_indexof_gen by discriminate; a_case f0 HA reset_indexof_eq).
+        destruct (plain_items ll) eqn:Pl; [rewrite (step_indexof_list_eq _ _ _ _ _ _ Pl)|rewrite step_indexof_list_none by exact Pl];
+          a_case f0 HA reset_indexof_eq.
+      + (* PArrayIndex over a literal list *)
+        rewrite step_arrayindex_list_eq. pose proof (fieldA_value f0 HA s f' b H0) as Ab. destruct (value f' b) as [oi b']. cbn [snd] in Ab.
+        destruct oi as [vi| | | |]; try (cbn [snd]; rewrite !reset_arrayindex_eq, Ab; reflexivity).
+        destruct vi; try (cbn [snd]; rewrite !reset_arrayindex_eq, Ab; reflexivity).
+        all: match goal with |- context [py_int ?v] => destruct (py_int v) as [[| |i| | | | |]| | | |] end;
+          try (cbn [snd]; rewrite !reset_arrayindex_eq, Ab; reflexivity).
+        all: destruct (py_index l i) as [x|] eqn:Ei; [|cbn [snd]; rewrite !reset_arrayindex_eq, Ab; reflexivity].
+        all: pose proof (itemA_value f0 HA s f' x (py_index_Forall _ _ _ _ H Ei)) as Ax; destruct (value f' x) as [o x']; cbn [snd] in Ax |- *.
+        all: rewrite !reset_arrayindex_eq, (list_updateA f0 l i x x' Ei Ax), Ab; reflexivity.
+      + (* PArrayIndex *)
+        destruct (step_arrayindex_gen f' a b H) as [g ->].
+        pose proof (fieldA_value f0 HA s f' a H0) as Aa. destruct (value f' a) as [oa a']. cbn [snd] in Aa.
+        destruct oa; try (cbn [snd]; rewrite !reset_arrayindex_eq, Aa; reflexivity).
+        pose proof (fieldA_value f0 HA s f' b H1) as Ab. destruct (value f' b) as [ob b']. cbn [snd] in Ab |- *.
+        rewrite !reset_arrayindex_eq, Aa, Ab. reflexivity.
+      + (* PDict *)
+        rewrite step_dict_eq.
+        assert (Ak : kwmapM (reset_item (reset f0)) (snd (kwvalues_of (value f') kv)) = kwmapM (reset_item (reset f0)) kv).
+        { apply kwvalues_of_mapM. eapply Forall_impl; [|exact H]. intros [k a] Ha. cbn [snd] in *. eapply itemA_value; eauto. }
+        destruct (kwvalues_of (value f') kv) as [o kv']. cbn [snd] in *. rewrite !reset_dict_eq. cbn [reset_field]. rewrite Ak. reflexivity.
+      + (* PDictKey *)
+        destruct a as [v|p0|lt|ll|kv].
+        all: try (rewrite step_dictkey_gen by discriminate; a_case f0 HA reset_dictkey_eq).
+        rewrite step_dictkey_dict_eq. a_case f0 HA reset_dictkey_eq.
+    - (* (B) *)
+      intros f' p q Hp R. destruct f' as [|f']; [discriminate|].
+      pose proof (fun a x => fieldB f0 HB f' a x) as FB.
+      inversion Hp; subst.
+      + inversion R; subst. reflexivity.
+      + (* PSequence *)
+        rewrite reset_seq_eq in R. apply obind_yield_inv in R as [x [E R]].
+        apply (listfieldB f0 HB f') in E; [|assumption]. bpeel R FB. inversion R; subst. rewrite !reset_seq_eq, E, E0. reflexivity.
+      + b_case R reset_abs_eq FB.
+      + b_case R reset_int_eq FB.
+      + b_case R reset_binop_eq FB.
+      + b_case R reset_and_eq FB.
+      + b_case R reset_skipif_eq FB.
+      + b_case R reset_counter_eq FB.
+      + b_case R reset_pad_eq FB.
+      + b_case R reset_padm_eq FB.
+      + b_case R reset_stutter_eq FB.
+      + b_case R reset_series_eq FB.
+      + b_case R reset_range_eq FB.
+      + b_case R reset_geom_eq FB.
+      + b_case R reset_impulse_eq FB.
+      + b_case R reset_loop_eq FB.
+      + (* PPingPong *)
+        match goal with Hs : true = true -> _ |- _ => specialize (Hs eq_refl) end.
+        rewrite reset_pingpong_eq in R. apply obind_yield_inv in R as [p1 [E1 R]].
+        pose proof (xarg_field_closed _ _ _ ltac:(eassumption) E1) as K1. apply FB in E1; [|assumption].
+        apply obind_yield_inv in R as [p2 [E2 R]].
+        assert (K2 : xarg true p2).
+        { destruct f' as [|g]; [discriminate|]. cbn in E2. destruct p1; try discriminate. apply omap_yield_inv in E2 as [q2 [Eq2 ->]].
+          inversion K1 as [? ? Fa _|? ? Hp1]; subst; [inversion Fa|]. apply XA_pat. eapply xpat_reset_closed; eauto. }
+        apply (aresetB f0 HB) in E2; [|assumption].
+        destruct (aall f' LMAX p2) as [ovs p3] eqn:EA. apply (aallAB f0 HA HB) in EA; [|assumption].
+        apply obind_yield_inv in R as [vs [_ R]]. inversion R; subst.
+        rewrite (reset_pingpong_any binop LMAX (S f0) p3 count vs 0 1 0 values pos dir rpos), !reset_pingpong_eq, EA, E2, E1. reflexivity.
+      + (* PReverse *)
+        match goal with Hs : true = true -> _ |- _ => specialize (Hs eq_refl) end.
+        rewrite reset_reverse_eq in R. apply obind_yield_inv in R as [i1 [E1 R]].
+        pose proof (xarg_field_closed _ _ _ ltac:(eassumption) E1) as K1. apply FB in E1; [|assumption].
+        destruct i1 as [v|p1|lt|ll|kv]; try discriminate R.
+        * destruct v; try discriminate R; inversion R; subst;
+            match goal with |- reset _ (PReverse ?i ?vs) = _ => rewrite (reset_reverse_any binop LMAX (S f0) i vs values) end;
+            rewrite !reset_reverse_eq, E1; reflexivity.
+        * destruct (aall f' LMAX (AP p1)) as [olen i2] eqn:EA.
+          assert (K2 : xarg true i2).
+          { pose proof (xpat_closed f') as [_ [_ [_ _]]]. clear - EA K1 binop LMAX.
+            destruct f' as [|g]; [inversion EA; subst; exact K1|].
+            inversion K1 as [? ? Fa _|? ? Hp1]; subst; [inversion Fa|].
+            rewrite aall_pattern in EA. pose proof (take_inv (xpat true) (Yield []) (step g) (fun q => xpat_step_closed true g q) LMAX p1 Hp1) as C.
+            destruct (take (Yield []) (step g) LMAX p1) as [ovs p']. cbn [snd] in C.
+            destruct ovs; try (inversion EA; subst; apply XA_pat; exact C).
+            destruct (reset g p') as [p''| | | |] eqn:Rr; inversion EA; subst; apply XA_pat; try exact C. eapply xpat_reset_closed; eauto. }
+          apply (aallAB f0 HA HB) in EA; [|assumption]. cbv zeta in R.
+          apply obind_yield_inv in R as [u [_ R]]. destruct i2 as [|p2| | |]; try discriminate R.
+          inversion K2 as [? ? Fa _|? ? Hp2]; subst; [inversion Fa|].
+          pose proof (takeA f0 HA true OutOfFuel f' f' p2 Hp2) as T.
+          destruct (take OutOfFuel (step f') f' p2) as [ovs p3]. cbn [snd] in T.
+          apply obind_yield_inv in R as [vs [_ R]]. inversion R; subst.
+          rewrite (reset_reverse_any binop LMAX (S f0) (AP p3) (rev vs) values), !reset_reverse_eq.
+          cbn [reset_field] in *. rewrite T. rewrite EA in *. rewrite E1. reflexivity.
+      + (* PChanged *)
+        rewrite reset_changed_eq in R. apply obind_yield_inv in R as [s1 [E1 R]].
+        pose proof (xarg_field_closed _ _ _ ltac:(eassumption) E1) as K1. apply FB in E1; [|assumption].
+        pose proof (fieldA_value f0 HA true f' s1 K1) as A. destruct (value f' s1) as [o s2]. cbn [snd] in A.
+        apply obind_yield_inv in R as [v [_ R]]. inversion R; subst. rewrite !reset_changed_eq, A, E1. reflexivity.
+      + rewrite reset_diff_eq in R. apply obind_yield_inv in R as [s1 [E1 R]].
+        pose proof (xarg_field_closed _ _ _ ltac:(eassumption) E1) as K1. apply FB in E1; [|assumption].
+        pose proof (fieldA_value f0 HA true f' s1 K1) as A. destruct (value f' s1) as [o s2]. cbn [snd] in A.
+        apply obind_yield_inv in R as [v [_ R]]. inversion R; subst. rewrite !reset_diff_eq, A, E1. reflexivity.
+      + b_case R reset_collapse_eq FB.
+      + b_case R reset_norepeats_eq FB.
+      + b_case R reset_subsequence_eq FB.
+      + b_case R reset_wrap_eq FB.
+      + b_case R reset_ref_eq FB.
+      + (* PReset *)
+        rewrite reset_preset_eq in R. apply obind_yield_inv in R as [x [E R]].
+        apply FB in E; [|apply XA_pat; assumption]. bpeel R FB. inversion R; subst. rewrite !reset_preset_eq, E, E0. reflexivity.
+      + (* PConcatenate *)
+        rewrite reset_concat_eq in R. apply obind_yield_inv in R as [x [E R]].
+        apply (listfieldB f0 HB f') in E; [|assumption]. inversion R; subst. rewrite !reset_concat_eq, E. reflexivity.
+      + (* PMap *)
+        rewrite reset_map_eq in R. bpeel R FB.
+        apply obind_yield_inv in R as [kw1 [E1 R]]. apply obind_yield_inv in R as [args' [E2 R]]. apply obind_yield_inv in R as [kw2 [E3 R]].
+        inversion R; subst.
+        pose proof (kwitems_closed f' (xpat_reset_closed f') _ _ ltac:(eassumption) E1) as K1.
+        apply (kwlistB f0 HB f') in E3; [|assumption]. apply (kwlistB f0 HB f') in E1; [|assumption]. apply (listB f0 HB f') in E2; [|assumption].
+        rewrite !reset_map_eq, E, E3, E1, E2. reflexivity.
+      + b_case R reset_indexof_eq FB.
+      + (* PArrayIndex over a literal list *)
+        rewrite reset_arrayindex_eq in R. apply obind_yield_inv in R as [x [E R]].
+        apply (listfieldB f0 HB f') in E; [|assumption]. bpeel R FB. inversion R; subst. rewrite !reset_arrayindex_eq, E, E0. reflexivity.
+      + b_case R reset_arrayindex_eq FB.
+      + (* PDict *)
+        rewrite reset_dict_eq in R. apply obind_yield_inv in R as [x [E R]].
+        apply (dictfieldB f0 HB f') in E; [|assumption]. inversion R; subst. rewrite !reset_dict_eq, E. reflexivity.
+      + b_case R reset_dictkey_eq FB.
+  Qed.
 End Reset2.
